@@ -47,7 +47,7 @@ def run(R):
         for f in repo.package_funcs():
             for k in calls_in(f.node):
                 if isinstance(k.func, ast.Attribute) and k.func.attr in ('wait', 'isalive') and \
-                        (ctext(k.func.value, f) or '').endswith('ptyproc'):
+                        (ctext(k.func.value, f, stale_ok=True) or '').endswith('ptyproc'):
                     n += 1
                     ok = f.qual in ('pty_spawn:spawn.wait', 'pty_spawn:spawn.isalive') and k.func.attr == f.name
                     c.check(ok, f, k, 'ptyprocess.%s() is consulted only by spawn.%s(), which copies the result into the spawn object'
@@ -99,7 +99,7 @@ def check_copies(c, f, mode):
         c.need(len(tests) == 1, 'spawn.isalive: expected one test')
         t = tests[0]
         cp = norm(t.ast)
-        alive_calls = cfg_nodes_with_call(f, lambda k: callee_last(k) == 'isalive' and (ctext(k.func.value, f) or '').endswith('ptyproc'))
+        alive_calls = cfg_nodes_with_call(f, lambda k: callee_last(k) == 'isalive' and (ctext(k.func.value, f, stale_ok=True) or '').endswith('ptyproc'))
         c.need(len(alive_calls) == 1 and isinstance(alive_calls[0][0].ast, ast.Assign), 'alive = ptyproc.isalive() not found')
         av = alive_calls[0][0].ast.targets[0].id
         edge = 'true' if cp == 'not %s' % av else ('false' if cp == av else None)
@@ -112,7 +112,7 @@ def check_copies(c, f, mode):
 def check_order(c, repo):
     f = repo.func('pty_spawn:spawn.wait')
     g = f.cfg
-    ws = cfg_nodes_with_call(f, lambda k: callee_last(k) == 'wait' and (ctext(k.func.value, f) or '').endswith('ptyproc'))
+    ws = cfg_nodes_with_call(f, lambda k: callee_last(k) == 'wait' and (ctext(k.func.value, f, stale_ok=True) or '').endswith('ptyproc'))
     c.need(len(ws) == 1 and isinstance(ws[0][0].ast, ast.Assign), 'spawn.wait: exitstatus = ptyproc.wait() not found')
     wv = ws[0][0].ast.targets[0].id
     rets = returns(f)
@@ -123,7 +123,7 @@ def check_order(c, repo):
     c.need(rets, 'spawn.wait has no return')
     f = repo.func('pty_spawn:spawn.close')
     g = f.cfg
-    cl = cfg_nodes_with_call(f, lambda k: callee_last(k) == 'close' and (ctext(k.func.value, f) or '').endswith('ptyproc'))
+    cl = cfg_nodes_with_call(f, lambda k: callee_last(k) == 'close' and (ctext(k.func.value, f, stale_ok=True) or '').endswith('ptyproc'))
     al = cfg_nodes_with_call(f, lambda k: callee_last(k) == 'isalive' and ctext(k.func.value, f) == 'self')
     c.need(len(cl) == 1, 'spawn.close: ptyproc.close() not found')
     after = [a for a in al if g.dominated_by(a[0], {cl[0][0]})[0]]
